@@ -80,6 +80,11 @@ theorem C03_keyword_escape (n : String) :
 theorem C03_keyword_table_complete :
     Gen.kwlist.filter (fun k => !Gen.pythonKeywords.contains k) = [] := by decide
 
+/-- … and conversely every entry of the code's table IS a keyword of the running interpreter: only keywords get the
+    trailing underscore, any other declared name (`match`, `type`, `print` as a method, …) is exposed as it is written -/
+theorem C03_keyword_table_sound :
+    Gen.pythonKeywords.filter (fun k => !Gen.kwlist.contains k) = [] := by decide
+
 /-- non-vacuity of `C03_submodule_first` -/
 example : partialMatch ["", "gtsam", "noise"] ["", "gtsam"] = true ∧ ["", "gtsam"].length < ["", "gtsam", "noise"].length := by decide
 
